@@ -91,7 +91,9 @@ def gen_case(rng, thorough=False):
     opts = rng.randrange(8)
     gran = rng.choice([1, 1000, 1000] + ([2000] if thorough else []))
     # '.', '+' are regex metacharacters, '[', ']', '?', '*' glob (QDir name filter) ones: all literal for the sink
-    base, suffix = rng.choice([(b'my.app', b'log')] * 4 + [(b'applog', b''), (b'a+b', b'txt'), (b'svc[2]', b'log'), (b'q?x*', b'txt')])
+    # hidden log files (.app.log; .hidden = empty base name + suffix "hidden") and QString::arg place markers in the name
+    base, suffix = rng.choice([(b'my.app', b'log')] * 5 + [(b'applog', b''), (b'a+b', b'txt'), (b'svc[2]', b'log'), (b'q?x*', b'txt'),
+                                                             (b'.app', b'log'), (b'', b'hidden'), (b'a%3b', b'log'), (b'x%1.%2', b'log')])
     names = Names(base, suffix)
     # process time zone, minutes east of UTC (POSIX TZ strings; the virtual clock itself is UTC)
     tz = rng.choice([0, 0, 0, 540, -660, 330, -210, 765])
@@ -206,7 +208,7 @@ def parse_listing(line, names, decode):
             continue
         n, mt, c = it.split(':')
         n, c = unhx(n), unhx(c)
-        if decode and n.endswith(b'.gz') and names.parse(n):
+        if decode and (names.parse(n) or {}).get('gz'):        # a compressed file of the scheme (a suffix may itself be "gz")
             try:
                 c = gzip.decompress(c)            # independent decoder, never Qt
             except Exception as e:
